@@ -613,11 +613,35 @@ def apply_vmap(interp: Any, vm: VmapV, args: list[V], kwargs: dict[str, V], st: 
     return mk((mapped,) + r.shape, r.dtype, [mapped_l] + lays(r))
 
 
-def parse_einops(pattern: str) -> tuple[list[str], list[str]] | None:
-    if "(" in pattern or "..." in pattern or "->" not in pattern:
+def parse_einops(pattern: str) -> tuple[list[Any], list[Any]] | None:
+    """axes of both sides; a parenthesised group is a list of names"""
+    if "..." in pattern or "->" not in pattern:
         return None
+
+    def side(txt: str) -> list[Any] | None:
+        out: list[Any] = []
+        cur: list[str] | None = None
+        for tok in txt.replace("(", " ( ").replace(")", " ) ").split():
+            if tok == "(":
+                if cur is not None:
+                    return None
+                cur = []
+            elif tok == ")":
+                if cur is None:
+                    return None
+                out.append(cur)
+                cur = None
+            elif cur is not None:
+                cur.append(tok)
+            else:
+                out.append(tok)
+        return None if cur is not None else out
+
     l, r = pattern.split("->")
-    return l.split(), r.split()
+    ls, rs = side(l), side(r)
+    if ls is None or rs is None:
+        return None
+    return ls, rs
 
 
 # ------------------------------------------------------------------------------- dispatch
@@ -1026,7 +1050,11 @@ def tensor_op(interp: Any, op: str, args: list[V], kwargs: dict[str, V], st: Sta
         axis(i, rank, node, op)
         if len(idx.shape) != rank:
             raise ShapeError(f"{op}: index {fmt_shape(st.norm_shape(idx.shape))} must have the rank of the input {fmt_shape(st.norm_shape(t.shape))}", node)
-        return TensorV(idx.shape, t.dtype)
+        k_ = axis(i, rank, node, op)
+        sink = getattr(interp, "pairings", None)
+        if sink is not None and idx.val is not None:
+            sink.append(("gather", [lays(t)[k_], tuple(idx.val)]))
+        return mk(idx.shape, t.dtype, idx.lay)
     if op in NEW:
         if op == "new_tensor":
             return unk("new_tensor")
@@ -1220,6 +1248,16 @@ def semiring_op(interp: Any, op: str, args: list[V], kwargs: dict[str, V], st: S
         yield interp.unk("semiring." + op), st
 
 
+CATEGORY_LAYOUT: dict[Any, Any] = {}
+
+
+def _remember_cat(dv: DistV, lay: Any) -> DistV:
+    """a categorical distribution whose samples index an axis of known layout"""
+    key = f"categorical@{len(CATEGORY_LAYOUT)}"
+    CATEGORY_LAYOUT[key] = lay
+    return DistV(key, dv.batch)
+
+
 def make_dist(interp: Any, kind: str, args: list[V], kwargs: dict[str, V], st: State, node: ast.AST) -> V:
     def shp(v: V | None) -> tuple[Dim, ...] | None:
         if isinstance(v, TensorV):
@@ -1235,7 +1273,10 @@ def make_dist(interp: Any, kind: str, args: list[V], kwargs: dict[str, V], st: S
         s = shp(p)
         if s is None or not s:
             return interp.unk("Categorical parameter")
-        return DistV("categorical", s[:-1])
+        dv = DistV("categorical", s[:-1])
+        if isinstance(p, TensorV) and p.lay is not None and p.lay[-1] is not None:
+            return _remember_cat(dv, p.lay[-1])
+        return dv
     if kind in ("Normal", "Uniform", "Beta", "Gamma", "Laplace", "Cauchy", "LogNormal"):
         names = {"Normal": ("loc", "scale"), "Uniform": ("low", "high")}.get(kind, ("a", "b"))
         a = kwargs.get(names[0], args[0] if args else None)
@@ -1273,7 +1314,10 @@ def dist_op(interp: Any, d: DistV, op: str, args: list[V], kwargs: dict[str, V],
         if any(x is None for x in ds):
             return interp.unk("sample_shape symbolic")
         ev: tuple[Dim, ...] = ()
-        return TensorV(tuple(ds) + d.batch + ev, "int" if d.kind == "categorical" else "float")  # type: ignore[arg-type]
+        shape_ = tuple(ds) + d.batch + ev  # type: ignore[operator]
+        if d.kind.startswith("categorical"):
+            return TensorV(shape_, "int", L.fresh(st.norm_shape(shape_)), CATEGORY_LAYOUT.get(d.kind))
+        return TensorV(shape_, "float")
     if op in ("entropy",):
         return TensorV(d.batch)
     return interp.unk("dist." + op)
@@ -1287,25 +1331,42 @@ def einops_op(interp: Any, op: str, args: list[V], kwargs: dict[str, V], st: Sta
         return interp.unk("einops operand")
     p = parse_einops(pat.s)
     if p is None:
-        return interp.unk("einops pattern with groups")
+        return interp.unk("einops pattern outside the modelled forms")
     l, r = p
+    if any(isinstance(a, list) for a in l):
+        return interp.unk("einops pattern that splits an input axis")
     if len(l) != len(t.shape):
         raise ShapeError(f"einops.{op}: pattern '{pat.s}' names {len(l)} axes but the tensor is {fmt_shape(st.norm_shape(t.shape))}", node)
     env = dict(zip(l, t.shape))
-    out = []
-    for a in r:
-        if a in env:
-            out.append(env[a])
-        elif a in kwargs and getd(kwargs[a], st) is not None and op == "repeat":
-            out.append(getd(kwargs[a], st))
-        elif a.isdigit():
-            out.append(Dim.const(int(a)))
-        else:
-            raise ShapeError(f"einops.{op}: axis '{a}' of '{pat.s}' is neither an input axis nor given a length", node)
-    if op == "rearrange" and sorted(l) != sorted(r):
-        raise ShapeError(f"einops.rearrange: '{pat.s}' does not keep the set of axes", node)
     lenv = dict(zip(l, lays(t)))
-    return mk(tuple(out), t.dtype, [lenv.get(a) if a in env else None for a in r])  # type: ignore[arg-type]
+    out: list[Dim] = []
+    outl: list[Any] = []
+
+    def one(a: str) -> tuple[Dim, Any]:
+        if a in env:
+            return env[a], lenv.get(a)
+        if a in kwargs and getd(kwargs[a], st) is not None and op == "repeat":
+            d = getd(kwargs[a], st)
+            return d, L.fresh_axis(d)  # type: ignore[arg-type,return-value]
+        if a.isdigit():
+            return Dim.const(int(a)), (() if a == "1" else None)
+        raise ShapeError(f"einops.{op}: axis '{a}' of '{pat.s}' is neither an input axis nor given a length", node)
+
+    used: list[str] = []
+    for a in r:
+        if isinstance(a, list):
+            ds, ls_ = zip(*(one(x) for x in a)) if a else ((), ())
+            used += a
+            out.append(prod(list(ds)))
+            outl.append(None if any(x is None for x in ls_) else tuple(at for x in ls_ for at in x))
+        else:
+            d, la = one(a)
+            used.append(a)
+            out.append(d)
+            outl.append(la)
+    if op == "rearrange" and sorted(x for x in used if x in env) != sorted(l):
+        raise ShapeError(f"einops.rearrange: '{pat.s}' does not keep the set of axes", node)
+    return mk(tuple(out), t.dtype, outl, t.val)
 
 
 # ------------------------------------------------------------------------------- python level
